@@ -268,3 +268,31 @@ void h_pairs(void)
   VERIF_CANARY;
 }
 #endif
+
+/* ------------------------------------------------------------------------------------------------
+ * buildOrthogonalNudgingOrderInfo, one pair (conn, conn2) of orthogonal connectors: the pair enters the "shared path with a common end point" set exactly when
+ * recording is on and the crossing detector reported CROSSING_SHARES_PATH_AT_END for one of THIS pair's segments -- never because of what an earlier pair
+ * left behind.  (Pairs in that set get a zero-gap equality instead of a separation.)  BOUNDED: routes of up to 4 points. */
+#if defined(JOB_pair_order)
+void w_pair(int type1, int type2, unsigned long n1, unsigned long n2, int build);
+unsigned verif_carried_flags; static unsigned segflags[4]; static int nrec; static unsigned reca, recb; static int asked_final_ok = 1; static unsigned long n1g;
+unsigned w_count_for_segment(unsigned long i, int finalSegment) { __CPROVER_assert(i >= 1 && i < n1g, "SPEC segments 1 .. size-1 of the first route are examined"); if ((finalSegment != 0) != (i + 1 == n1g)) asked_final_ok = 0; return segflags[i < 4 ? i : 0]; }
+void w_recorded(unsigned a, unsigned b) { nrec++; reca = a; recb = b; }
+void h_pair_order(void)
+{
+  int t1, t2, build; unsigned long n1, n2; unsigned f[4], carried;
+  __CPROVER_assume(t1 >= 0 && t1 <= 2 && t2 >= 0 && t2 <= 2 && n1 <= 4 && n2 <= 4 && (build == 0 || build == 1));
+  for (int k = 0; k < 4; ++k) { __CPROVER_assume(f[k] < 32); segflags[k] = f[k]; }
+  verif_carried_flags = carried; n1g = n1; nrec = 0;
+  w_pair(t1, t2, n1, n2, build);
+  _Bool evidence = 0;
+  for (unsigned long i = 1; i < 4; ++i) if (i < n1 && (f[i] & 4u)) evidence = 1;
+  _Bool want = (t1 == 2 && t2 == 2 && build && evidence);     /* the outer loop only hands over orthogonal `conn`; a non-orthogonal partner is skipped */
+  if (t1 == 2) {
+    __CPROVER_assert(nrec == (want ? 1 : 0), "SPEC a pair is recorded as sharing a path with a common end exactly on evidence from its own crossing detection");
+    if (want && nrec == 1) __CPROVER_assert((reca == 11 && recb == 12) || (reca == 12 && recb == 11), "SPEC the recorded pair is this pair");
+    __CPROVER_assert(asked_final_ok, "SPEC the last segment, and only it, is examined as the final segment");
+  }
+  VERIF_CANARY;
+}
+#endif
